@@ -634,3 +634,11 @@ package tor
 //@   modifies *
 //@   focus    blocking
 //@   props    C17
+
+// tor.Expire: PARTIAL check (C03): the fair-share arithmetic never divides by
+// zero, whatever the memory marks, the allocation counter and the set of
+// torrents are.
+//@ func Expire
+//@   modifies *
+//@   focus    div
+//@   props    C03
